@@ -99,6 +99,24 @@ def emitter_histories(rng, impl, count, gen_grid, variant_form, fails):
             except ValueError:
                 err = 1
             outs.append(observe(mat, err))
+            # the same statement on the implementation alone (failing input for the search): after an accepted assignment
+            # the object holds the one-source-per-cell map of the mask / the map it was given, and bins = max + 1
+            if err == 0 and "wrong" not in kind:
+                held = [int(x) for x in np.asarray(mat.voxel_map).ravel()]
+                if kind.startswith("mask"):
+                    mm = [True] * n if kind == "mask-none" else [bool(b) for b in np.asarray(m).ravel()]
+                    run, want = 0, []
+                    for b in mm:
+                        want.append(run if b else -1)
+                        run += 1 if b else 0
+                else:
+                    want = [int(x) for x in v]
+                if held != want or int(mat.bins) != max(want) + 1:
+                    fails.append({"claim": "mask / voxel_map setter: after obj.%s the object holds %s and bins = max + 1, whatever map it "
+                                           "carried before" % ("mask = m" if kind.startswith("mask") else "voxel_map = v",
+                                                               "the one-source-per-cell map of m" if kind.startswith("mask") else "v"),
+                                  "grid": {"kind": g["kind"], "shape": list(sh)}, "assignment": kind, "history_so_far": ops,
+                                  "expected_map": want, "held_map": held, "bins": int(mat.bins)})
         lines.append("b2z (check_em_history %s %s %s %s [%s] [%s])" % (shp(sh), vm_c, m_c, o0, "; ".join(ops), "; ".join(outs)))
     return lines, dist
 
